@@ -45,6 +45,9 @@ type tblCase struct {
 	// reader options of the control arm: 0 default (verify on load), 1 verify on read too, 2 verify on read only, 3 none
 	ReadVerify int `json:"read_verify,omitempty"`
 	// bloom false positive probability in 1/10000 (0 = library default) and the explicit EnableBloomFilter option
+	// one value is replaced by a non-empty value whose CRC-64 is zero (2f f4 42): the stored checksum of such a value
+	// must still protect it
+	ZeroCRC     bool `json:"zero_crc_value,omitempty"`
 	BloomFp     int  `json:"bloom_fp,omitempty"`
 	BloomEnable bool `json:"bloom_enable,omitempty"`
 }
@@ -134,6 +137,9 @@ func tblPairs(c tblCase) []kv {
 		}
 		out = append(out, kv{k, v})
 	}
+	if c.ZeroCRC && len(out) > 0 {
+		out[r.Intn(len(out))].v = []byte{0x2f, 0xf4, 0x42}
+	}
 	return out
 }
 
@@ -181,6 +187,7 @@ func tblGen(r *rand.Rand, mode string, thorough bool) tblCase {
 		}
 		c.SkipList = false
 	}
+	c.ZeroCRC = (mode == "damage" && r.Intn(3) == 0) || r.Intn(12) == 0
 	c.BloomFp = pick(r, 0, 0, 3000, 100, 1)
 	c.BloomEnable = r.Intn(3) == 0
 	return c
